@@ -4,9 +4,9 @@ namespace c16
 {
   void reg_blocked(std::vector<vf::Target>& tg)
   {
-    tg.push_back({"blocked_quad", [](vf::Tape& t, vf::Ctx& c) { blocked_target<Shape::Hypercube<2>, false>(t, c); }, 320, 24, 60000});
-    tg.push_back({"blocked_tria", [](vf::Tape& t, vf::Ctx& c) { blocked_target<Shape::Simplex<2>, true>(t, c); }, 320, 24, 60000});
-    tg.push_back({"blocked_hexa", [](vf::Tape& t, vf::Ctx& c) { blocked_target<Shape::Hypercube<3>, false>(t, c); }, 320, 24, 60000});
-    tg.push_back({"blocked_tetra", [](vf::Tape& t, vf::Ctx& c) { blocked_target<Shape::Simplex<3>, true>(t, c); }, 320, 24, 60000});
+    tg.push_back({"blocked_quad", [](vf::Tape& t, vf::Ctx& c) { blocked_target<Shape::Hypercube<2>, false>(t, c); }, 200, 2, 60000});
+    tg.push_back({"blocked_tria", [](vf::Tape& t, vf::Ctx& c) { blocked_target<Shape::Simplex<2>, true>(t, c); }, 200, 2, 60000});
+    tg.push_back({"blocked_hexa", [](vf::Tape& t, vf::Ctx& c) { blocked_target<Shape::Hypercube<3>, false>(t, c); }, 200, 2, 60000});
+    tg.push_back({"blocked_tetra", [](vf::Tape& t, vf::Ctx& c) { blocked_target<Shape::Simplex<3>, true>(t, c); }, 200, 2, 60000});
   }
 }
